@@ -163,6 +163,12 @@ LoopReturn == /\ pc = "loop" /\ ~Continue
               /\ Done("return", IF resnorm = NaN THEN "System.solve:nan-resnorm" ELSE "loop-guard")
               /\ UNCHANGED <<conf, iiter, resnorm, yres, g, lin, linok, draws>>
 
+\* demanded design only: a non-finite residual norm may also be reported at once (the alternative is to go on
+\* iterating until maxiter; both satisfy the property, returning does not)
+LoopNonFinite == /\ pc = "loop" /\ conf.rep /\ ~Fin(resnorm)
+                 /\ Raise("SolverError")
+                 /\ UNCHANGED <<conf, iiter, resnorm, yres, g, lin, linok, draws, why>>
+
 LoopMaxiter == /\ pc = "loop" /\ Continue /\ conf.maxiter # NoMax /\ iiter >= conf.maxiter
                /\ Raise("SolverError")
                /\ UNCHANGED <<conf, iiter, resnorm, yres, g, lin, linok, draws, why>>
@@ -275,7 +281,7 @@ Init == /\ conf \in [m : Methods, tol : Tols, miniter : MinIters, maxiter : MaxI
         /\ lin = [rhs |-> 0, len |-> FALSE, ret |-> "none", lhs |-> LNoProg, res |-> 0]
         /\ linok = TRUE /\ draws = <<>> /\ outcome = "none" /\ why = "none"
 
-Next == \/ Call \/ LoopReturn \/ LoopMaxiter \/ LoopNext
+Next == \/ Call \/ LoopReturn \/ LoopNonFinite \/ LoopMaxiter \/ LoopNext
         \/ LShort \/ LCall \/ LFinite \/ LCheck
         \/ DAsm \/ DRet \/ NAsm \/ NLin \/ RAsm0 \/ RTop \/ RNewAccept \/ RNewReject
         \/ SAsm0 \/ SLin \/ STryAccept \/ STryReject \/ STryFail \/ AAsm \/ ASolve \/ AFin \/ AEnd
@@ -309,7 +315,7 @@ TypeOK == /\ pc \in {"call", "loop", "done", "l_short", "l_call", "l_finite", "l
 
 \* S->C: every complete behaviour with the model's predictions
 Emit(x) == PrintT(<<"VF", ToJson(x)>>)
-EmitTerminal == (Emitting /\ ~conf.rep /\ outcome # "none") =>
+EmitTerminal == (Emitting /\ outcome # "none") =>
                    Emit([conf |-> conf, draws |-> draws, outcome |-> outcome, iiter |-> iiter,
                          cert |-> (outcome # "return" \/ CertNow), why |-> why, yres |-> yres])
 =============================================================================
